@@ -101,9 +101,9 @@ def _child(flags, items, base, tag, ctx="plain"):
     json.dump({"items": items, "ctx": ctx}, open(spec, "w"))
     env = checklib.worker_env(os.path.join(base, f"xdg_{tag}"))
     env.pop("PYTHONOPTIMIZE", None)
-    p = subprocess.run([sys.executable, "-W", "ignore"] + flags + ["-c", CHILD, spec, out], env=env, stdout=subprocess.PIPE, stderr=subprocess.STDOUT, text=True)
+    txt, _ = checklib.run_child([sys.executable, "-W", "ignore"] + flags + ["-c", CHILD, spec, out], env)
     if not os.path.exists(out):
-        return None, p.stdout[-600:]
+        return None, txt[-600:]
     return json.load(open(out)), ""
 
 
